@@ -11,6 +11,11 @@
 (*   fractional = some time was given as a non-integer (attrs holds its int part)   *)
 (*   aborted = "" | "pack" | "unpack": the call raised or did not stop (the record    *)
 (*            then holds whatever state the objects were left in)                     *)
+(*   origin = "fresh" (the set is put on a new object), "same" (the object encoded in   *)
+(*            the previous block is kept, edited and encoded again) or "decoded" (the    *)
+(*            object the previous block decoded is kept, edited and encoded);            *)
+(*            edits = number of field groups set / cleared in between.  attrs always     *)
+(*            is the state of the object's fields at the moment of this _pack            *)
 (* Two steps per block (the two critical sections); the design spec's clause        *)
 (* operators and its whole-set encoding PackTokens judge each block against ITS OWN  *)
 (* input, so anything inherited from an earlier block fails a clause.  Total.        *)
@@ -27,7 +32,7 @@ Tag(S) == {<<c, round>> : c \in S}
 TInit == /\ tid \in 1..Len(Batch) /\ l = 1 /\ bad = {}
          /\ attrs = T.blocks[1].attrs
          /\ pc = "PackFlags" /\ flags = <<0, 0>> /\ wire = <<>> /\ rpos = 0 /\ rflags = <<0, 0>> /\ dec = Empty
-         /\ leak = <<>> /\ round = 1
+         /\ leak = <<>> /\ round = 1 /\ stored = <<0, 0>> /\ edits = 0
 
 \* _pack ran on the block's object: the six Pack* steps at once, with the recorded result
 TPack == /\ pc = "PackFlags"
@@ -36,7 +41,7 @@ TPack == /\ pc = "PackFlags"
                               \cup (IF R.wtoks = PackTokens(attrs) THEN {} ELSE {"C_wire_tokens"})
                               \cup (IF R.aborted = "pack" THEN {"P_encode_failed"} ELSE {}))
          /\ pc' = "UnpackFlags" /\ l' = l + 1
-         /\ UNCHANGED <<tid, attrs, rpos, rflags, dec, leak, round>>
+         /\ UNCHANGED <<tid, attrs, rpos, rflags, dec, leak, round, stored, edits>>
 
 \* _unpack ran on those bytes into a new object: the six Unpack* steps at once, with the recorded result
 Clauses == RoundTripClauses(attrs, R.dec, R.rflags)
@@ -47,11 +52,17 @@ TUnpack == /\ pc = "UnpackFlags"
                                 \cup (IF R.rtoks = wire THEN {} ELSE {"C_reader_tokens"})
                                 \cup (IF R.aborted = "unpack" THEN {"P_decode_failed"} ELSE {}))
            /\ pc' = "done" /\ l' = l + 1
-           /\ UNCHANGED <<tid, attrs, flags, wire, leak, round>>
+           /\ UNCHANGED <<tid, attrs, flags, wire, leak, round, stored, edits>>
 
-\* the next block of the sequence: the spec's NextBlock with the recorded input
+\* the next block of the sequence, with the recorded input: the spec's NextBlock (origin "fresh": new objects) or
+\* KeepEncoder / KeepDecoded ; SetField / ClearField ... ; Repack (origin "same" / "decoded": the object encoded /
+\* decoded in the previous block, after the recorded number of edits, is encoded again)
 TNextBlock == /\ pc = "done" /\ round < NB
               /\ attrs' = T.blocks[round + 1].attrs
+              /\ stored' = (CASE T.blocks[round + 1].origin = "same" -> flags
+                               [] T.blocks[round + 1].origin = "decoded" -> rflags
+                               [] OTHER -> <<0, 0>>)
+              /\ edits' = T.blocks[round + 1].edits
               /\ pc' = "PackFlags" /\ flags' = <<0, 0>> /\ wire' = <<>> /\ rpos' = 0 /\ rflags' = <<0, 0>> /\ dec' = Empty
               /\ round' = round + 1 /\ l' = l + 1
               /\ UNCHANGED <<tid, bad, leak>>
